@@ -81,15 +81,23 @@ def to_csv(val):
     # Make sure all individual values do not contain
     # leading or trailing whitespaces.
     unicode_values = list(map(str.strip, map(str, val)))
+    if not unicode_values:
+        return ""
+
+    # A single value is saved as plain text; any comma or quote it contains is
+    # part of the value. It only requires the bracketed list form, if it would
+    # otherwise be read as a list or not be read at all.
+    if len(unicode_values) == 1:
+        single = unicode_values[0]
+        if single and not (single[0] == "[" and single[-1] == "]"):
+            return single
+
     stream = StringIO()
     writer = csv.writer(stream, dialect="excel")
     writer.writerow(unicode_values)
-    # Strip any csv.writer added carriage return line feeds
-    # and double quotes before saving.
-    csv_string = stream.getvalue().strip().strip('"')
-    if len(unicode_values) > 1:
-        csv_string = "[" + csv_string + "]"
-    return csv_string
+    # Strip the csv.writer added carriage return line feed before saving;
+    # the csv quoting of individual values is required to read them back.
+    return "[" + stream.getvalue().rstrip("\r\n") + "]"
 
 
 def from_csv(value_string):
